@@ -17,7 +17,7 @@ var (
 
 func removeFromWorkingTree(path string) error {
 	// a tracked path that is a directory on disk now is not the tracked file: leave it alone
-	if f, err := os.Stat(path); err == nil && !f.IsDir() {
+	if f, err := os.Lstat(path); err == nil && !f.IsDir() { // the path itself, not what a link at the path points to
 		if err := os.Remove(path); err != nil {
 			return fmt.Errorf("fail to delete %s from the working tree: %w", path, err)
 		}
